@@ -104,7 +104,7 @@ PROPS = {
         ],
     },
     "C02": {
-        "lean_modules": ["TableauVerif.Props.C02"],
+        "lean_modules": ["TableauVerif.Props.C02", "TableauVerif.Props.C02Flat", "TableauVerif.Props.C07Header"],
         "oracles": ["c02.closure", "c02.known"],
         "streams": [
             ("e2e.C02.closure", 400, 20000, 8),
